@@ -656,6 +656,83 @@ def listing_uses_final(ctx):
                         f.file, f.line)
 
 
+def assembler_operand_order(ctx):
+    """An instruction with several operands is packed in the order of its
+    operands (the order of the listing, of instrs.def_instr and of the
+    disassembler)."""
+    repo = ctx.repo
+    rule = 'C09.operands-packed-in-operand-order'
+    ctx.rule(rule, 'in every arm of QvmCode.assembled that unpacks several '
+             'operands (`a, b = args`) the k-th value given to struct.pack '
+             'is derived from the k-th operand')
+    f = repo.func('qbee.qvm_codegen', 'QvmCode.assembled')
+    n = 0
+    for holder in ast.walk(f.node):
+        for fld in ('body', 'orelse'):
+            body = getattr(holder, fld, None)
+            if not (isinstance(body, list) and body and
+                    isinstance(body[0], ast.stmt)):
+                continue
+            names = None
+            derived = {}
+            for st in body:
+                if isinstance(st, ast.Assign) and len(st.targets) == 1 and \
+                        isinstance(st.targets[0], (ast.Tuple, ast.List)) \
+                        and isinstance(st.value, ast.Name) and \
+                        all(isinstance(e, ast.Name)
+                            for e in st.targets[0].elts) and \
+                        len(st.targets[0].elts) >= 2:
+                    names = [e.id for e in st.targets[0].elts]
+                    derived = {nm: {k} for k, nm in enumerate(names)}
+                    continue
+                if names is None:
+                    continue
+                if isinstance(st, ast.Assign) and len(st.targets) == 1 and \
+                        isinstance(st.targets[0], ast.Name):
+                    src = set()
+                    for x in ast.walk(st.value):
+                        if isinstance(x, ast.Name) and x.id in derived:
+                            src |= derived[x.id]
+                    if any(isinstance(c, ast.Call) and
+                           dotted(c.func) == 'struct.pack'
+                           for c in ast.walk(st.value)):
+                        pass
+                    else:
+                        derived[st.targets[0].id] = src
+                for c in ast.walk(st):
+                    if isinstance(c, ast.Call) and \
+                            dotted(c.func) == 'struct.pack' and \
+                            len(c.args) - 1 == len(names):
+                        n += 1
+                        order = []
+                        for a in c.args[1:]:
+                            src = set()
+                            for x in ast.walk(a):
+                                if isinstance(x, ast.Name) and \
+                                        x.id in derived:
+                                    src |= derived[x.id]
+                            order.append(sorted(src))
+                        arm = unparse(holder.test)[:50] if isinstance(
+                            holder, ast.If) and fld == 'body' else 'arm'
+                        construct = f'{f.file}:QvmCode.assembled:{arm}'
+                        # the k-th packed value must depend on the k-th
+                        # operand (it may also use an earlier one, as the
+                        # device operation is looked up per device)
+                        ok = all(k in o for k, o in enumerate(order))
+                        ctx.instance(rule, construct,
+                                     sample={'order': order})
+                        if not ok:
+                            ctx.finding(rule, construct,
+                                        f'the arm `{arm}` packs its '
+                                        f'operands in the order {order} '
+                                        f'(positions of the source '
+                                        f'operands): the encoded operands '
+                                        f'are swapped with respect to the '
+                                        f'listing and the disassembler',
+                                        f.file, c.lineno)
+    ctx.floor('multi-operand pack sites in the assembler', n, 4)
+
+
 def disassembler_operands_unaltered(ctx):
     """QModule.disassemble must show what is encoded: the operands it prints
     are the values struct.unpack returned (or a formatting of them), never a
@@ -725,6 +802,7 @@ def run(ctx):
     emittable_encodable(ctx, instrs)
     listing_uses_final(ctx)
     disassembler_operands_unaltered(ctx)
+    assembler_operand_order(ctx)
     return ('Sibling-agreement analysis of the three instruction codecs '
             '(QvmCode.assembled if/elif chain evaluated per opcode, '
             'qvm.instrs Operand classes, QModule.disassemble chain), of the '
